@@ -80,7 +80,10 @@ func FromPlain(content []byte) string {
 			break
 		}
 		if utf8.RuneStart(b) {
-			content = content[:i]
+			// Keep a last rune which is complete (or invalid).
+			if !utf8.FullRune(content[i:]) {
+				content = content[:i]
+			}
 			break
 		}
 	}
